@@ -19,8 +19,8 @@ ASSUMPTIONS = ['"recognised page": every line has baseline (2 px .. block width,
                'logits and character table are both present or both absent', 'expected words on Arabic lines use the repository\'s own order conversion (itself checked for permutation and involution)',
                'ALTO TextLine elements carry no id: lines are matched by order within their block']
 N = {'quick': 800, 'thorough': 40000}
-CLASSES = ['page', 'page', 'page_whitespace', 'page_arabic', 'page_conf', 'order_conversion', 'page_short_lines']
-REQUIRED = ['aligned_lines_with_offset_window', 'astral_lines', 'entity_like_lines', 'short_baseline_lines', 'exports', 'lines_expected', 'aligned_lines', 'fallback_lines', 'words_compared', 'nonascii_space_lines', 'arabic_lines', 'arabic_fallback_lines', 'dropped_lines',
+CLASSES = ['page', 'page', 'page_whitespace', 'page_arabic', 'page_conf', 'order_conversion', 'page_short_lines', 'page_long_lines']
+REQUIRED = ['aligned_lines_over_1000_frames', 'aligned_lines_with_offset_window', 'astral_lines', 'entity_like_lines', 'short_baseline_lines', 'exports', 'lines_expected', 'aligned_lines', 'fallback_lines', 'words_compared', 'nonascii_space_lines', 'arabic_lines', 'arabic_fallback_lines', 'dropped_lines',
             'printspace_checked', 'reimports', 'conversions_checked']
 NS = '{http://www.loc.gov/standards/alto/ns-v2#}'
 CH = list("abcdefgh.,-") + [' '] + list('ابتثج')
@@ -115,7 +115,7 @@ def gen(rng, i, ctx):
             pg = [[x0 + 5, by - h[0]], [x1 - 5, by - h[0]], [x1 - 5, by + h[1]], [x0 + 5, by + h[1]]]
             script = 'arabic' if cls == 'page_arabic' else str(rng.choice(['latin', 'latin', 'latin', 'arabic']))
             words = []
-            for _ in range(int(rng.integers(1, 7))):
+            for _ in range(int(rng.integers(1, 7)) if not (cls == 'page_long_lines' and l == 0) else int(rng.integers(70, 120))):
                 if script == 'arabic' and rng.random() < 0.7:
                     words.append(''.join('ابتثج'[int(x)] for x in rng.integers(0, 5, size=int(rng.integers(1, 5)))))
                 else:
@@ -140,6 +140,8 @@ def gen(rng, i, ctx):
                 t = str(rng.choice(['', '   ', None, '\t']))
                 t = None if t == 'None' else t
             mode = str(rng.choice(['peaky', 'peaky', 'noisy', 'noisy', 'diffuse', 'short', 'absent', 'nocoords', 'transformer']))
+            if cls == 'page_long_lines' and l == 0:
+                mode = str(rng.choice(['peaky', 'noisy']))       # a long line (more than 1000 frames) with alignable posteriors
             pad = [int(rng.integers(1, 12)), int(rng.integers(0, 6))] if rng.random() < 0.5 else [0, 0]
             lines.append({'id': 'r%d-l%d' % (r, l), 'baseline': bl, 'heights': h, 'polygon': pg, 'text': t, 'mode': mode, 'seed': int(rng.integers(0, 1 << 30)), 'sep': sep, 'script': script,
                           'pad': pad})
@@ -253,6 +255,8 @@ def check(case, mon, ctx):
                 mon.count('short_baseline_lines')
             aligned = aligned_flags.get(l['id'], False)
             mon.count('aligned_lines' if aligned else 'fallback_lines')
+            if aligned and lo.logits.shape[0] > 1000:
+                mon.count('aligned_lines_over_1000_frames')
             if aligned and lo.logit_coords[0]:
                 mon.count('aligned_lines_with_offset_window')
             if any(ord(ch) > 0xFFFF for ch in t):
